@@ -203,7 +203,7 @@ func c11Case(run *evid.Run, i int, j *Journal) {
 			if rng.Intn(3) == 0 {
 				p.Policy = "ungated"
 			}
-			kinds := []string{"absent", "removed", "error", "garbage", "not-entry"}
+			kinds := []string{"absent", "removed", "error", "garbage", "not-entry", "ctx-error"}
 			if h.Codec == "link" {
 				kinds = append(kinds, "bad-nonce", "bad-nonce") // sealed links whose stored nonce has the wrong length: undecodable
 			}
@@ -286,6 +286,8 @@ func c11Case(run *evid.Run, i int, j *Journal) {
 					_ = cs.API().Dag().Remove(context.Background(), c)
 				case "error":
 					cs.SetFault(c, store.Error)
+				case "ctx-error":
+					cs.SetFault(c, store.CtxError)
 				case "garbage":
 					cs.SetFault(c, store.Garbage)
 				case "not-entry":
